@@ -176,7 +176,7 @@ static char *samples[MAX_SAMPLES];
 static int   n_samples;
 static long  n_sample_calls;
 
-#define MAX_VIOL_KEYS 64
+#define MAX_VIOL_KEYS 256
 static char *viol_keys[MAX_VIOL_KEYS];
 static int   n_viol_keys;
 
